@@ -4,6 +4,7 @@ import Octo.Lemmas.OpsGroupFinal
 import Octo.Lemmas.OpsSortRun
 import Octo.Lemmas.OpsUnnest
 import Octo.Lemmas.OpsBufferProps
+import Octo.Lemmas.OpsCtgb
 /-!
 # C15 — Operators keep a valid changelog and compute incrementally what batch computes
 
@@ -207,5 +208,72 @@ theorem etb_net_commutes (ms : List Msg) (hr : InRange ms) (rows : List Row) (hc
   simp only [outRecs, hrun]
   rw [net_perm (recs_bufSpec_perm ms [] (by simp) hr) y]
   simpa using hc y
+
+/-- the buffer keeps the changelog valid when the event time is a function of the row
+    (see `etb_refuted` for what happens otherwise) -/
+theorem etb_valid_out (ms : List Msg) (hr : InRange ms) (he : EtByRow (recs ms)) (hv : ValidLog (recs ms)) :
+    ValidLog (outRecs etbOp ms) := by
+  have hrun : etbOp.run ms = (bufSpec [] ms, none) := etb_runFrom ms [] [] List.Pairwise.nil rfl
+  simp only [outRecs, hrun]
+  apply validLog_of_cls_eq hv
+  intro y
+  -- all records of the class of `y` carry one event time
+  have : ∃ e : Option Int, ∀ r ∈ snds [] ++ recs ms, rowEq r.vals y = true → r.et = e := by
+    by_cases hex : ∃ a ∈ recs ms, rowEq a.vals y = true
+    · obtain ⟨a, ha, hay⟩ := hex
+      refine ⟨a.et, ?_⟩
+      intro r hrm hry
+      have hrm' : r ∈ recs ms := by simpa [snds] using hrm
+      exact he r hrm' a ha (rowEq_trans hry (by rw [rowEq_symm]; exact hay))
+    · refine ⟨none, ?_⟩
+      intro r hrm hry
+      exact absurd ⟨r, by simpa [snds] using hrm, hry⟩ hex
+  obtain ⟨e, hcl⟩ := this
+  have := cls_bufSpec y ms [] e (by simp) hr hcl
+  simpa [snds, cls] using this
+
+/-! ## CustomTriggerGroupBy with the end-of-stream trigger, behind its EventTimeBuffer -/
+theorem ctgb_spec (agg : GAgg α) (spec : List Row → Row) (hagg : GAggOK agg spec) (kf inf : Row → Row)
+    (hk : RowCongr kf) (hi : RowCongr inf) (etIdx : Option Nat)
+    (hEt : ∀ x out, ∃ et, ctgbEventTime etIdx (kf x ++ out) = .ok et)
+    (ms : List Msg) (hr : InRange ms) (he : EtByRow (recs ms)) (hv : ValidLog (recs ms)) (rows : List Row)
+    (hc : Consolidates rows (recs ms)) :
+    let o := ctgbNode agg (fun x => .ok (kf x)) (fun x => .ok (inf x)) etIdx ms false
+    o.2 = none ∧ (∀ q ∈ recs o.1, q.retr = false) ∧ ∀ y, net (recs o.1) y = cnt (groupB spec kf inf rows) y := by
+  have hrun : etbOp.run ms = (bufSpec [] ms, none) := etb_runFrom ms [] [] List.Pairwise.nil rfl
+  -- what the group-by core receives is again a valid changelog with the same content
+  have hv' : ValidLog (recs (bufSpec [] ms)) := by
+    have := etb_valid_out ms hr he hv
+    simpa only [outRecs, hrun] using this
+  have hc' : Consolidates rows (recs (bufSpec [] ms)) := by
+    intro y
+    rw [net_perm (recs_bufSpec_perm ms [] (by simp) hr) y]
+    simpa using hc y
+  obtain ⟨s', inv, hcore⟩ := ctgb_runFrom agg kf inf hk hi etIdx (bufSpec [] ms) ⟨[], []⟩ [] (cinv_init agg kf inf)
+    (by simpa using hv')
+  simp only [List.nil_append] at inv
+  obtain ⟨htrig, hcnt⟩ := cinv_result agg spec hagg kf inf hk hi _ s' inv rows hc'
+  obtain ⟨l, hfl, hvals, hadd⟩ := ctgbFlush_ok agg etIdx s'.groups s'.keys htrig
+    (by intro k hkm out; obtain ⟨x, rfl⟩ := inv.isKey k hkm; exact hEt x out)
+  have hend : (ctgbOp agg (fun x => .ok (kf x)) (fun x => .ok (inf x)) etIdx).onEnd s' = (l.map .data, none) := by
+    simp only [ctgbOp, hfl]
+  simp only [ctgbNode, feed, hrun, Option.isSome_none]
+  simp only [Op.run]
+  rw [show (ctgbOp agg (fun x => .ok (kf x)) (fun x => .ok (inf x)) etIdx).init = ⟨[], []⟩ from rfl, hcore, hend]
+  refine ⟨rfl, ?_, ?_⟩
+  · intro q hq
+    simp only [recs_append, recs_wmMsgs, List.nil_append, recs_map_data] at hq
+    exact hadd q hq
+  · intro y
+    simp only [recs_append, recs_wmMsgs, List.nil_append, recs_map_data]
+    rw [← hcnt y, ← hvals]
+    -- the net of additions is the count of their rows
+    clear hfl hend hvals
+    induction l with
+    | nil => rfl
+    | cons q qs ih =>
+      have hq := hadd q List.mem_cons_self
+      simp only [net, weight_eq, sgn, hq, List.map_cons, cnt, ih (fun a ha => hadd a (List.mem_cons_of_mem _ ha))]
+      simp
 
 end Octo.C15
